@@ -4,12 +4,12 @@ package main
 // the first advance), T15w (delimited lexemes are measured from Pos/End).
 
 import (
-	"os"
 	"fmt"
 	"go/ast"
 	"go/constant"
 	"go/token"
 	"go/types"
+	"os"
 	"sort"
 	"strings"
 
